@@ -532,8 +532,122 @@ def rule_K(ctx):
                       node=c, key='simplify:' + unparse(c))
 
 
+def rule_F(ctx):
+    """C12.F stop detection hands the dynamic programme the reward it documents: findStopsGlobal interpreted on small tracks (the
+    repository's Track, Obs, ENUCoords, ObsTime) with a recording stand-in for optimalPartition and the minimal enclosing circle
+    computed by the checker: cell (i, j) is (j - i)^2 when the fixes i ... j-1 fit in a circle of the given diameter and last longer
+    than the given duration, 0 otherwise; the matrix is symmetric; the direction is MAXIMIZE"""
+    import math
+    import itertools as it
+    from .. import absint, npstub
+    consts = _consts(ctx)
+    MAX = consts['MODE_SEGMENTATION_MAXIMIZE']
+    f = ctx.prog.func(SEG + '.findStopsGlobal')
+    rec = []
+    stubs = dict(npstub.stubs())
+    stubs['progressbar'] = lambda x, **k: (v_ for v_ in x)
+
+    def partition(cm, mode=None, verbose=True):
+        rec.append((cm, mode))
+        raise orders.Raised('Recorded', 'cost matrix handed over')
+    stubs['optimalPartition'] = partition
+
+    def circle_of(points):
+        """radius of the minimal enclosing circle of at most a dozen points (brute force over pairs and triples)"""
+        pts = sorted(set(points))
+        if len(pts) == 1:
+            return 0.0
+        best = None
+        cands = []
+        for a, b in it.combinations(pts, 2):
+            cands.append((((a[0] + b[0]) / 2.0, (a[1] + b[1]) / 2.0), math.hypot(a[0] - b[0], a[1] - b[1]) / 2.0))
+        for a, b, c in it.combinations(pts, 3):
+            d = 2.0 * (a[0] * (b[1] - c[1]) + b[0] * (c[1] - a[1]) + c[0] * (a[1] - b[1]))
+            if abs(d) < 1e-12:
+                continue
+            ux = ((a[0] ** 2 + a[1] ** 2) * (b[1] - c[1]) + (b[0] ** 2 + b[1] ** 2) * (c[1] - a[1]) + (c[0] ** 2 + c[1] ** 2) * (a[1] - b[1])) / d
+            uy = ((a[0] ** 2 + a[1] ** 2) * (c[0] - b[0]) + (b[0] ** 2 + b[1] ** 2) * (a[0] - c[0]) + (c[0] ** 2 + c[1] ** 2) * (b[0] - a[0])) / d
+            cands.append(((ux, uy), math.hypot(a[0] - ux, a[1] - uy)))
+        for (cx, cy), r in cands:
+            if all(math.hypot(p[0] - cx, p[1] - cy) <= r * (1 + 1e-12) + 1e-12 for p in pts) and (best is None or r < best):
+                best = r
+        return best
+
+    class Circle(orders.PyStub):
+        def __init__(self, radius):
+            self.radius = radius
+            self.center = None
+
+    fn = absint.funcs(ctx, SEG, stubs)
+    T = absint.classref(ctx, 'tracklib.core.track.Track', fn)
+    EN = absint.classref(ctx, 'tracklib.core.obs_coords.ENUCoords', fn)
+    OT = absint.classref(ctx, 'tracklib.core.obs_time.ObsTime', fn)
+    fn['sqrt'], fn['hypot'] = math.sqrt, math.hypot
+
+    def min_circle(piece):
+        pts_ = [(o.fields['position'].fields['E'], o.fields['position'].fields['N']) for o in piece.fields['_Track__POINTS']]
+        return Circle(circle_of(pts_)) if pts_ else None
+    fn['minCircle'] = min_circle
+    fn['__globals__']['minCircle'] = min_circle
+    run = orders.make_func(f.node, fn)
+    D = 10.0
+    tracks = {
+        'a stop (four fixes within 3 m) between two moves': ([(0, 0), (30, 0), (60, 0), (61, 1), (62, 0), (61, -1), (90, 0), (120, 0)], 10),
+        'three fixes at the corners of a triangle of side 0.9 x diameter (each within the diameter of the first, enclosing circle wider than the diameter), then a tight stop':
+            ([(0, 0), (9, 0), (4.5, 7.794), (4.6, 7.8), (4.4, 7.7), (4.5, 7.9), (40, 40)], 10),
+        'fixes spread on a line, each 4 m from the next': ([(0, 0), (4, 0), (8, 0), (12, 0), (16, 0), (20, 0)], 10),
+        'all fixes at one place': ([(5, 5)] * 6, 10),
+    }
+    bad = None
+    n = 0
+    try:
+        for label, (pts, step) in tracks.items():
+            for duration in (15.0, 25.0):
+                del rec[:]
+                n += 1
+                obs = [absint.real_obs(ctx, fn, EN(float(x_), float(y_), 0.0), OT.readUnixTime(1.6e9 + step * k)) for k, (x_, y_) in enumerate(pts)]
+                t = T(obs, 'u', 't')
+                try:
+                    run(t, D, duration, 1, False)
+                except orders.Raised as ex:
+                    if ex.name != 'Recorded':
+                        bad = bad or {'track': label, 'exception': '%s: %s' % (ex.name, str(ex)[:160])}
+                        continue
+                if len(rec) != 1:
+                    bad = bad or {'track': label, 'optimalPartition called': len(rec)}
+                    continue
+                cm, mode = rec[0]
+                N = len(pts)
+                cell = lambda i, j: (cm[i, j] if hasattr(cm, '__getitem__') else None)
+                if mode != MAX:
+                    bad = bad or {'track': label, 'direction handed to optimalPartition': mode, 'MODE_SEGMENTATION_MAXIMIZE': MAX}
+                for i in range(N):
+                    for j in range(i + 1, N):
+                        want = 0.0
+                        if i <= N - 3 and j <= N - 2:
+                            seg = [(float(x_), float(y_)) for x_, y_ in pts[i:j]]
+                            dur = step * (j - 1 - i)
+                            if 2.0 * circle_of(seg) < D and dur > duration:
+                                want = float((j - i) ** 2)
+                        got = cell(i, j)
+                        gs = cell(j, i)
+                        if not (isinstance(got, (int, float)) and abs(float(got) - want) < 1e-9 and isinstance(gs, (int, float)) and abs(float(gs) - want) < 1e-9):
+                            bad = bad or {'track': label, 'fixes': [list(p_) for p_ in pts], 'sampling (s)': step, 'diameter': D, 'duration': duration, 'cell': [i, j],
+                                          'reward handed over': [got if isinstance(got, (int, float)) else repr(got), gs if isinstance(gs, (int, float)) else repr(gs)],
+                                          'documented reward': want, 'enclosing circle diameter of fixes i ... j-1': 2.0 * circle_of([(float(x_), float(y_)) for x_, y_ in pts[i:j]]),
+                                          'their duration': step * (j - 1 - i)}
+    except orders.Unsupported as ex:
+        raise shape_error('findStopsGlobal not interpretable: %s' % ex, f.loc())
+    except orders.PROGRAM_ERRORS as ex:
+        bad = bad or {'exception': '%s: %s' % (type(ex).__name__, str(ex)[:200])}
+    ctx.check(bad is None, 'C12.F', f, 'stop detection maximises the reward it documents: (j - i)^2 for runs of fixes that fit in a circle of the given diameter and last longer than the '
+              'given duration, 0 otherwise, symmetric (%d interpreted tracks x durations)' % n, witness=bad, node=f.node, key='stop-reward')
+
+
+
 RULES = [
     ('C12.X', rule_X, 'quick'),
+    ('C12.F', rule_F, 'quick'),
     ('C12.B', rule_B, 'quick'),
     ('C12.S', rule_S, 'quick'),
     ('C12.C', rule_C, 'quick'),
